@@ -293,6 +293,12 @@ func (ts *TermStore) Eq(a, b *Term) *Term {
 	if a.ID > b.ID {
 		a, b = b, a
 	}
+	if b.IsConst() && a.Sort.K == SBV && deepConstIte(a) {
+		return ts.mapIte(a, func(l *Term) *Term { return ts.Bool(l.C == b.C) })
+	}
+	if a.IsConst() && b.Sort.K == SBV && deepConstIte(b) {
+		return ts.mapIte(b, func(l *Term) *Term { return ts.Bool(l.C == a.C) })
+	}
 	// (ite c x y) == const simplification when x,y const
 	if b.IsConst() || a.IsConst() {
 		k, o := a, b
@@ -447,6 +453,12 @@ func (ts *TermStore) Bin(op Op, a, b *Term) *Term {
 		}
 		return ts.BVConst(int(w), r)
 	}
+	if b.IsConst() && deepConstIte(a) {
+		return ts.mapIte(a, func(l *Term) *Term { return ts.Bin(op, l, b) })
+	}
+	if a.IsConst() && deepConstIte(b) {
+		return ts.mapIte(b, func(l *Term) *Term { return ts.Bin(op, a, l) })
+	}
 	// lift over (ite c k1 k2) with constant branches when the other operand is constant
 	if a.Op == OIte && b.IsConst() && a.A[1].IsConst() && a.A[2].IsConst() {
 		return ts.Ite(a.A[0], ts.Bin(op, a.A[1], b), ts.Bin(op, a.A[2], b))
@@ -519,6 +531,12 @@ func (ts *TermStore) Cmp(op Op, a, b *Term) *Term {
 	if a == b {
 		return ts.Bool(op == OULe || op == OSLe)
 	}
+	if b.IsConst() && deepConstIte(a) {
+		return ts.mapIte(a, func(l *Term) *Term { return ts.Cmp(op, l, b) })
+	}
+	if a.IsConst() && deepConstIte(b) {
+		return ts.mapIte(b, func(l *Term) *Term { return ts.Cmp(op, a, l) })
+	}
 	if a.Op == OIte && b.IsConst() && a.A[1].IsConst() && a.A[2].IsConst() {
 		return ts.Ite(a.A[0], ts.Cmp(op, a.A[1], b), ts.Cmp(op, a.A[2], b))
 	}
@@ -540,6 +558,9 @@ func (ts *TermStore) Zext(a *Term, w int) *Term {
 	if int(a.Sort.W) == w {
 		return a
 	}
+	if deepConstIte(a) {
+		return ts.mapIte(a, func(l *Term) *Term { return ts.Zext(l, w) })
+	}
 	if a.IsConst() {
 		return ts.BVConst(w, a.C)
 	}
@@ -560,6 +581,9 @@ func (ts *TermStore) Extract(a *Term, hi, lo int) *Term {
 	w := hi - lo + 1
 	if lo == 0 && w == int(a.Sort.W) {
 		return a
+	}
+	if deepConstIte(a) {
+		return ts.mapIte(a, func(l *Term) *Term { return ts.Extract(l, hi, lo) })
 	}
 	if a.IsConst() {
 		return ts.BVConst(w, a.C>>uint(lo))
@@ -623,15 +647,49 @@ func (ts *TermStore) FBin(op Op, a, b *Term) *Term {
 	return ts.mk(op, a.Sort, a, b, nil, 0, 0, "")
 }
 
+// mapIte applies f to every (constant) leaf of the ite-tree t and rebuilds the tree (iteratively
+// along the else-spine, so that 256-entry lookup tables do not recurse deeply).
+func (ts *TermStore) mapIte(t *Term, f func(*Term) *Term) *Term {
+	// collect the spine: conds and then-branches
+	var conds, thens []*Term
+	cur := t
+	for cur.Op == OIte {
+		conds = append(conds, cur.A[0])
+		thens = append(thens, cur.A[1])
+		cur = cur.A[2]
+	}
+	res := f(cur)
+	for i := len(conds) - 1; i >= 0; i-- {
+		var th *Term
+		if thens[i].Op == OIte {
+			th = ts.mapIte(thens[i], f)
+		} else {
+			th = f(thens[i])
+		}
+		res = ts.Ite(conds[i], th, res)
+	}
+	return res
+}
+
+// deepConstIte: an ite-tree with more than one level whose leaves are constants
+func deepConstIte(t *Term) bool {
+	return t.Op == OIte && (t.A[1].Op == OIte || t.A[2].Op == OIte) && iteConstLeaves(t, 0)
+}
+
 // iteConstLeaves: t is an ite-tree (bounded size) whose leaves are all constants.
 func iteConstLeaves(t *Term, depth int) bool {
-	if t.IsConst() {
-		return true
+	for n := 0; ; n++ {
+		if t.IsConst() {
+			return true
+		}
+		if t.Op != OIte || depth > 16 || n > 4096 {
+			return false
+		}
+		if !t.A[1].IsConst() && !iteConstLeaves(t.A[1], depth+1) {
+			return false
+		}
+		t = t.A[2]
 	}
-	if t.Op != OIte || depth > 128 {
-		return false
-	}
-	return iteConstLeaves(t.A[1], depth+1) && iteConstLeaves(t.A[2], depth+1)
 }
 
 func (ts *TermStore) FNeg(a *Term) *Term {
